@@ -317,9 +317,10 @@ Fixpoint arr_dims (rank : nat) (rows : list obj) : list nat :=
   | O => []
   | S r => length rows :: match rows with OList sub :: _ => arr_dims r sub | _ => [] end
   end.
-(* the prefix of an array: '#' rank 'A', the rank printed through Printer.Append (base and radix apply) *)
+(* the prefix of an array: '#' rank 'A', the rank in decimal whatever the base and radix (repo_fixes C03-14; it
+   used to go through Printer.Append: #2.A, ##b10A) *)
 Definition array_prefix (c : pcfg) (rank : nat) : list byte :=
-  [35%N] ++ integer_text c (Z.of_nat rank) ++ [65%N].
+  [35%N] ++ to_digits 10 (N.of_nat rank) ++ [65%N].
 Definition novec_text (c : pcfg) (n : nat) : list byte :=      (* #<(VECTOR n)> *)
   [35; 60; 40; 86; 69; 67; 84; 79; 82; 32]%N ++ integer_text c (Z.of_nat n) ++ [41; 62]%N.
 Definition noarr_text (c : pcfg) (dims : list nat) : list byte :=   (* #<(ARRAY T (d ...))> *)
